@@ -74,7 +74,7 @@ PROPS = {
         design_ref='DESIGN.md §11 "Weight-sum typing"',
     ),
     'C08': dict(
-        rules=[r_linear.rule_L01_c08, r_seed.l02_seed_degree],
+        rules=[r_linear.rule_L01_c08, r_seed.l02_seed_degree, r_step.s07n_seed_reaches_state],
         feature_sets=_sets(['default'], ['default', 'u16', 'f32']),
         rules_thorough=[on_build(r_linear.rule_L01_c08, 'u16'), on_build(r_linear.rule_L01_c08, 'f32')],
         explanation=('(L01) for every method over a single value whose constructor and next() stay inside the affine-form domain (see C15): the state the '
@@ -85,7 +85,9 @@ PROPS = {
                      '(L02) indicators: init() and next() are interpreted in the same domain with the price accessors of the candle as stream values of coefficient sum 1; '
                      'every inner method (built from one value by Method::new / MovingAverageConstructor::init) remembers the abstract value it was seeded with and every next(&mut inner, &x) '
                      'compares x with it: a seed that is a price level (coefficient sum 1) for a method that is fed differences (coefficient sum 0), or the reverse, is reported - such an inner '
-                     'method starts at the seed and decays towards the level of what it is fed, so the constant candle does not give constant values. 31 of 37 indicators are inside the path budget.'),
+                     'method starts at the seed and decays towards the level of what it is fed, so the constant candle does not give constant values. 31 of 37 indicators are inside the path budget. '
+                     '(S07n) on every path of every Method::new that returns Ok, the returned state is computed from the construction value (two named exceptions: the windowless ADI and CollapseTimeframe): '
+                     'a constructor that returns defaults - or primes copies it then drops - has no prehistory at all.'),
         not_decided=['indicators (candle input), selections, dispersion methods and every method with a product of stream values or a stream-dependent branch: outside the domain, listed as undecided',
                      'exact constancy in floating point / absence of drift: the argument is over the reals',
                      'indicators: only the translation degree of a seed is decided (price level vs difference); a difference-like quantity that is not zero on a constant candle (high - low, volume) seeded with 0.0 is not seen; six indicators exceed the path budget and are listed as undecided'],
@@ -187,9 +189,10 @@ PROPS = {
     ),
     'C14': dict(
         rules=[r_counters.s08_monotone_counters, lambda ctx: r_mirror.s04_mirror_siblings(ctx, which=('cross::CrossAbove', 'reversal::Upper')),
-               lambda ctx: r_step.s07_step_once(ctx, only_types=('Cross', 'ReversalSignal'), rule_id='S07c')],
+               lambda ctx: r_step.s07_step_once(ctx, only_types=('Cross', 'ReversalSignal'), rule_id='S07c'),
+               lambda ctx: r_step.s07n_seed_reaches_state(ctx, only_types=('Cross', 'CrossAbove', 'CrossUnder', 'ReversalSignal', 'UpperReversalSignal', 'LowerReversalSignal'), rule_id='S07nc')],
         feature_sets=_sets(['default'], ['default', 'ci']),
-        explanation=('(S04) CrossUnder and LowerReversalSignal are, function by function, the HIR mirror image of CrossAbove and UpperReversalSignal under the swap >=/<=, >/< on float operands, max/min and the declared names ("exactly in the mirrored case"). Decides the clause "streams much longer than PeriodType::MAX" for the detectors: no position field of the crossing / '
+        explanation=('(S07nc) the state every crossing / reversal detector is constructed with is computed from its construction value on every Ok path: the first step is judged against the seed, and Cross / ReversalSignal start as their two halves started from the same seed would. (S04) CrossUnder and LowerReversalSignal are, function by function, the HIR mirror image of CrossAbove and UpperReversalSignal under the swap >=/<=, >/< on float operands, max/min and the declared names ("exactly in the mirrored case"). Decides the clause "streams much longer than PeriodType::MAX" for the detectors: no position field of the crossing / '
                      'reversal detectors (nor of any other method) is a capacity-limited monotone counter (S08), a position truncated to a narrower integer, or a counter that wraps silently. '
                      '(S07c) every path of the detectors\' next() that reaches its normal return steps each owned sub-detector exactly once, so Cross = CrossAbove - CrossUnder sees every sample on both sides.'),
         not_decided=['that the max-side definitions themselves (strict/non-strict pair, pivot window, tie rule) are the documented ones',
